@@ -1,3 +1,4 @@
+#define _FILE_OFFSET_BITS 64
 // Reader-level op: the public LHAReader API over four kinds of input stream, with the
 // file-system layer (lha_arch_*) replaced by scripted stubs and the allocator wrapped
 // (link-time --wrap) so that live blocks can be counted and allocations made to fail.
@@ -288,6 +289,43 @@ int vh_ops_reader(int argc, char **argv)
 			vh_out(" live=%ld allocs=%ld peak=%ld", trk_live, trk_count, trk_peak_bytes);
 			if (is_cb) vh_out(" reads=%lu moved=%lu", reads, moved);
 		}
+		return 1;
+	}
+	// rdrbig <policy> <gap> <ops> <hex1> <hex2>: a SEEKABLE FILE holding hex1, then <gap> bytes of hole (a sparse temporary file),
+	// then hex2 - members whose compressed size is in the gigabytes, without the gigabytes being written or read
+	if (!strcmp(argv[0], "rdrbig") && argc == 6) {
+		RCtx c;
+		VhBytes b2;
+		char *ops, *tok, *save;
+		int first = 1;
+		long long gap = atoll(argv[2]);
+		trk_count = 0; trk_live = 0; trk_n = 0; trk_bytes = 0; trk_peak_bytes = 0; trk_fail_at = -1;
+		memset(&c, 0, sizeof(c));
+		c.pipe_child = -1;
+		if (!vh_parse_hex(argv[4], &c.a) || !vh_parse_hex(argv[5], &b2)) return 0;
+		c.fh = tmpfile();
+		fwrite(c.a.data, 1, c.a.len, c.fh);
+		if (gap > 0) fseeko(c.fh, (off_t) gap, SEEK_CUR);
+		fwrite(b2.data, 1, b2.len, c.fh);
+		rewind(c.fh);
+		free(b2.data);
+		trk_on = 1;
+		c.stream = lha_input_stream_from_FILE(c.fh);
+		c.reader = c.stream ? lha_reader_new(c.stream) : NULL;
+		trk_on = 0;
+		if (c.reader == NULL) return 0;
+		if (!strcmp(argv[1], "plain")) lha_reader_set_dir_policy(c.reader, LHA_READER_DIR_PLAIN);
+		else if (!strcmp(argv[1], "eof")) lha_reader_set_dir_policy(c.reader, LHA_READER_DIR_END_OF_FILE);
+		else lha_reader_set_dir_policy(c.reader, LHA_READER_DIR_END_OF_DIR);
+		ops = strdup(argv[3]);
+		for (tok = strtok_r(ops, ";", &save); tok; tok = strtok_r(NULL, ";", &save)) {
+			if (!first) vh_out(";");
+			first = 0;
+			rctx_step(&c, tok);
+		}
+		free(ops);
+		rctx_close(&c);
+		vh_out(" live=%ld", trk_live);
 		return 1;
 	}
 	if (!strcmp(argv[0], "rdr2") && argc == 10) {
